@@ -4,6 +4,7 @@ import (
 	"encoding/hex"
 	"fmt"
 	"math/big"
+	"sort"
 	"strings"
 
 	"github.com/nspcc-dev/neo-go/pkg/core/block"
@@ -429,4 +430,19 @@ func faultText(f string) string {
 		return f[i+3:]
 	}
 	return f
+}
+
+// SameNotifSet compares two notification lists as multisets: unless a statement fixes an order
+// (C06's subscriber fan-out), the order in which one invocation emits its events is not judged.
+func SameNotifSet(a, b []Notif) bool {
+	if len(a) != len(b) {
+		return false
+	}
+	as, bs := make([]string, len(a)), make([]string, len(b))
+	for i := range a {
+		as[i], bs[i] = fmt.Sprint(a[i]), fmt.Sprint(b[i])
+	}
+	sort.Strings(as)
+	sort.Strings(bs)
+	return fmt.Sprint(as) == fmt.Sprint(bs)
 }
